@@ -335,16 +335,16 @@ static void cv_case(const cfg_t *c, const call_t *k, int delta_choice) {
 }
 
 /* ------------------------------------------------------------------ configuration alphabets */
-/* level 0: small quick alphabet (KFold, bootstrap), 1: quick LOO, 2: thorough */
+/* level -1: minimal (two responses only), 0: small quick alphabet (KFold, bootstrap), 1: quick LOO, 2: thorough */
 static void choose_learner(cfg_t *c, int nalgo, int level) {
   memset(c, 0, sizeof *c); c->ny = 1; c->nlv = 1; c->ncls = 0;
   c->algo = vx_choose("algo", nalgo);
   if (c->algo == A_PLS) {
-    c->p = 2 + vx_choose("p-2", level == 2 ? 3 : level == 1 ? 2 : 1); c->nlv = 1 + vx_choose("nlv-1", level == 2 ? 3 : 2); c->ny = 1 + vx_choose("ny-1", level == 2 ? 3 : 2);
-    c->xa = level == 0 ? 1 : vx_choose("xscaling", 2); c->ya = level == 2 ? vx_choose("yscaling", 2) : 0;
+    c->p = 2 + vx_choose("p-2", level == 2 ? 3 : level == 1 ? 2 : 1); c->nlv = 1 + vx_choose("nlv-1", level == 2 ? 3 : 2); c->ny = level < 0 ? 2 : 1 + vx_choose("ny-1", level == 2 ? 3 : 2);
+    c->xa = level <= 0 ? 1 : vx_choose("xscaling", 2); c->ya = level == 2 ? vx_choose("yscaling", 2) : 0;
     vx_require(c->nlv <= c->p);
   } else if (c->algo == A_MLR) {
-    c->p = 1 + vx_choose("p-1", level == 2 ? 6 : level == 1 ? 3 : 2); c->ny = 1 + vx_choose("ny-1", level == 0 ? 2 : 3);
+    c->p = 1 + vx_choose("p-1", level == 2 ? 6 : level == 1 ? 3 : 2); c->ny = level < 0 ? 2 : 1 + vx_choose("ny-1", level == 0 ? 2 : 3);
   } else {
     c->p = 1 + vx_choose("p-1", 2); c->ncls = 2 + vx_choose("ncls-2", 2);
   }
@@ -375,8 +375,8 @@ static void mode_kfold(void) {
   for (int i = 0; i < n; i++) { lab[i] = vx_choose("label", nlab); cnt[lab[i]]++; }
   /* n = 7 ({0..3}^7, 16384 label vectors): two worker threads (fewer threads than groups and a ragged last batch), small learner alphabet */
   int tc = n == 7 ? 1 : vx_choose("threads", 3), nthreads = tc == 0 ? 1 : tc == 1 ? 2 : 4;
-  int dl = (T && n == 6) ? vx_choose("delta", 2) : 0;
-  cfg_t c; choose_learner(&c, 2, (T && n == 6) ? 1 : 0); c.n = n;
+  int dl = 0;
+  cfg_t c; choose_learner(&c, 2, n == 7 ? -1 : T ? 1 : 0); c.n = n;
   /* the statement's refit is undefined when a training set cannot carry the model */
   for (int g = 0; g < nlab; g++) if (cnt[g]) vx_require(c.n - cnt[g] >= c.p + 2);
   call_t k = {S_KFOLD, nthreads, 0, 1, lab};
